@@ -7,6 +7,8 @@ import Firefly.Proof.AmlFirstPassG
 import Firefly.Proof.AmlMerge
 import Firefly.Proof.AmlPrint
 import Firefly.Proof.AmlStrict
+import Firefly.Proof.AmlStrictTot
+import Firefly.Proof.AmlFirstShapes
 /-!
 # C12 — Malformed AML is rejected with an error, never a crash, hang or stray pointer
 
@@ -286,16 +288,18 @@ What is proved towards them, each piece named for what it is:
 | `print_total` | the print walk over any `C13.WF` pool with correctly typed values (`PrintOK`) | total: no `.panic`, no `.outOfFuel` with `printFuel` |
 | `tree_passes_no_panic_WF` | `connectNamedObjArgs(0)`; resolve loop — all of stage 3 as `ParseAML` runs it | never `.panic`, `MergeInv` kept; fuel NOT bounded |
 | `shape_checks_sound` | the oracle's executable checks of `MergeInv` / `CallShape` imply them | the hypotheses are evaluated on the model's run of every replayed input |
+| `parse_prefix_no_panic_WF` | `ParseAML` up to and excluding `parseDeferredBlocks` (`init`; first pass; `connectNamedObjArgs`; resolve loop), with `MergeInv` DERIVED from the first pass | never `.panic`, `C13.WF` after success and failure, `MergeInv` handed to `parseDeferredBlocks`; the first-pass part total (fuel ≥ 13·len+13); only table- and pool-level hypotheses (root a parentless scope block, freed slots nameless, no old `Scope` object with this table's handle); fuel of the tree passes NOT bounded |
 | `resolve_loop_no_panic_WF` | `resolveLoopPasses` (merge + relocate until stable) | never `.panic`, `MergeInv` (so `C13.WF`) kept; number of passes / fuel NOT bounded |
 | `merge_no_panic_WF` | `mergeScopeDirectives` (moves contents, frees the directive) | never `.panic`, `C13.WF` kept, only live slots freed; under `MergeInv` (shape of `Scope` directives: hypothesis, kept); fuel bound NOT proved |
 
-| `deferred_block_no_panic_WF` | `parseDeferred(obj)`: the strict re-parse (`parseModeAllBlocks`) of ONE deferred block — `parseObjectArgs`, `parseArgs`, `parseArg`, `parseStrictTermArg`, `parseTarget`, `parseNextObject`, `parseNamePathOrMethodCall` with method calls, `parseFieldElements` | never `.panic`, `C13.WF` kept after success and failure, old objects kept under their parents; on success every `Method` has its flags again; under the hypotheses `MethodsHaveFlags`, no `Method` on the scope stack, the block object attached under a non-`Method` (hypotheses, evaluated by the oracle in front of every block); fuel NOT bounded |
+| `deferred_block_no_panic_WF` | `parseDeferred(obj)`: the strict re-parse (`parseModeAllBlocks`) of ONE deferred block — `parseObjectArgs`, `parseArgs`, `parseArg`, `parseStrictTermArg`, `parseTarget`, `parseNextObject`, `parseNamePathOrMethodCall` with method calls, `parseFieldElements` | never `.panic`, `C13.WF` kept after success and failure, old objects kept under their parents; on success every `Method` has its flags again; under the hypotheses: every `Method` has its flags or is unnamed and encloses neither the root nor the block (what a rejected earlier table may leave behind), no `Method` on the scope stack, the block object attached under a non-`Method` (hypotheses, evaluated by the oracle in front of every block); fuel NOT bounded |
+| `deferred_block_total` | the same `parseDeferred(obj)` with fuel ≥ 16·len + 15 | total: returns (no `.panic`, no `.outOfFuel`), same guarantees, same hypotheses |
 | `deferred_block_checks_sound` | the oracle's executable checks imply the hypotheses of `deferred_block_no_panic_WF` | the checks run on the model's walk in front of every `parseDeferred` of every replayed input |
 
-Not covered by any theorem: the export of the shape hypotheses (`MergeInv`, `CallShape`, `MethodsHaveFlags`) by the
-first pass, the walk `parseDeferredBlocks` over all blocks (that the hypotheses of one block hold again for the next
+Not covered by any theorem: the export of the shape hypotheses `CallShape` and `MethodsHaveFlags` by the
+first pass (`MergeInv` is exported: `parse_prefix_no_panic_WF`), the walk `parseDeferredBlocks` over all blocks (that the hypotheses of one block hold again for the next
 one; the per-block theorem gives `MethodsHaveFlags`, the scope stack and `C13.WF` back, not the facts about the next
-block object), the fuel bound of the tree walks and of the strict parse, and the composition into `parseAML`.  These
+block object), the fuel bound of the tree walks, and the composition into `parseAML`.  These
 are decided per input by the oracle on the real code and by the model-vs-implementation correspondence.
 
 `AmlParser.firstPass` is `p.init(…); p.scopeEnter(0); p.parseObjectList()` — everything `ParseAML` does before
@@ -461,6 +465,80 @@ theorem shape_checks_sound (d : Bytes) (s : AmlParser.PState) :
     (AmlParser.callShapeB s = true → AmlParser.CallShape s) :=
   ⟨fun tp h => AmlParser.mergeInvB_sound tp h, fun h => AmlParser.callShapeB_sound h⟩
 
+/-- **`ParseAML` up to the deferred blocks never panics, keeps the pool well-formed, and the first pass establishes
+`MergeInv`** (`parse_prefix`: the stages `first_pass_total`, `first_pass_WF` and `tree_passes_no_panic_WF` composed,
+with the shape hypothesis of the tree passes DERIVED instead of assumed).
+
+`AmlParser.F.parsePrefix` is what `ParseAML` does before `parseDeferredBlocks`: `init`, `scopeEnter(0)`,
+`parseObjectList` (the first pass), `connectNamedObjArgs(0)` and the resolve loop (`mergeScopeDirectives` /
+`relocateNamedObjects` until stable); `ParseAML` is this prefix followed by `AmlParser.F.afterPrefix` (first conjunct).
+
+For every table `d` (length + 2^28 ≤ 2^32), every handle, every fuel, from ANY well-formed pool (`TreeG`; freed slots
+may exist and are reused) with room for 16 objects per table byte, whose root is a parentless scope block, whose freed
+slots carry no name (`newObject` keeps the name of a slot it reuses — true of every pool `ParseAML` itself produces:
+`free` is only applied to a directive, its name and its block), and in which no `Scope` object left behind by an
+earlier, rejected table carries this table's handle:
+
+* the prefix never ends in `.panic`; in the state it hands to `parseDeferredBlocks` — or returns with an error — the
+  pool is `C13.WF` with a live root and opcode-table indices in range; and if the prefix did not fail, that state
+  satisfies `MergeInv` (every pending `Scope` directive of this table: unnamed, exactly two arguments, a childless
+  name-path object holding the `[]byte` of the path, and a scope block);
+* with fuel ≥ 13·len + 13 the first-pass part returns (no `.outOfFuel`), and unless it failed its final state already
+  satisfies `MergeInv` — the per-input check `MergeInv-after-first-pass` of `shapeAudit` is redundant under these
+  hypotheses (it keeps running as a cross-check).
+
+Not derived: `CallShape` (needed behind the deferred blocks, whose walk is open) and the fuel bound of the tree passes. -/
+theorem parse_prefix_no_panic_WF (d : Bytes) (hd : d.size + 268435456 ≤ 4294967296) (s : AmlParser.PState)
+    (ht : AmlParser.G.TreeG s.tree) (hsz : s.tree.pool.size + 16 * d.size ≤ 4294967295) (fuel handle : Nat)
+    (hroot : C13.P s.tree 0 = C13.INV ∧ (C13.slot s.tree 0).opcode = opIntScopeBlock)
+    (hfreed : ∀ x, C13.live s.tree x = false → (C13.slot s.tree x).name.b0 = 0)
+    (hhandle : ∀ x, C13.live s.tree x = true → (C13.slot s.tree x).opcode = opScope →
+      (C13.slot s.tree x).tableHandle ≠ handle) :
+    AmlParser.parseAML d fuel handle = AmlParser.F.parsePrefix d fuel handle >>= AmlParser.F.afterPrefix d fuel ∧
+    AmlParser.NPs (AmlParser.F.parsePrefix d fuel handle) s
+      (fun b s' => (C13.WF s'.tree ∧ C13.live s'.tree 0 = true ∧
+          ∀ i, C13.live s'.tree i = true → (opFlags (C13.slot s'.tree i).infoIndex).isSome = true) ∧
+        (b = true → AmlParser.MI d s')) ∧
+    (13 * d.size + 13 ≤ fuel → ∃ r s1, AmlParser.firstPass d fuel handle s = .ok (r, s1) ∧
+      (r ≠ .failed → AmlParser.MI d s1)) := by
+  refine ⟨AmlParser.F.parseAML_prefix d fuel handle, ?_, ?_⟩
+  · refine (AmlParser.F.parsePrefix_np hd ht hsz fuel handle hroot hfreed hhandle).mono ?_
+    intro b s' ⟨tp, hmi⟩
+    exact ⟨⟨tp.wf, tp.root, tp.info⟩, hmi⟩
+  · intro hfuel
+    obtain ⟨r, s1, e, _⟩ := AmlParser.G.firstPass_tot hd ht hsz fuel handle hfuel
+    exact ⟨r, s1, e, ((AmlParser.F.firstPass_mi hd ht hsz fuel handle hroot hfreed hhandle).2 r s1 e).2⟩
+
+/-- the pool hypotheses of `parse_prefix_no_panic_WF` are decidable (`AmlParser.poolHypB`; the replay driver counts
+on how many tables of every run they hold: statistics `prefix_pool_hyp_holds` / `prefix_pool_hyp_fails`) -/
+theorem prefix_pool_checks_sound (s : AmlParser.PState) (handle : Nat) (h : AmlParser.poolHypB s.tree handle = true) :
+    (C13.P s.tree 0 = C13.INV ∧ (C13.slot s.tree 0).opcode = opIntScopeBlock) ∧
+    (∀ x, C13.live s.tree x = false → (C13.slot s.tree x).name.b0 = 0) ∧
+    (∀ x, C13.live s.tree x = true → (C13.slot s.tree x).opcode = opScope → (C13.slot s.tree x).tableHandle ≠ handle) :=
+  AmlParser.F.poolHyp_of_b h
+
+/-- non-vacuity: the default-scope pool satisfies the pool hypotheses (for every handle: it holds no `Scope` object),
+and so does a pool in which a slot was allocated and freed again (the next `newObject` reuses it) -/
+example : ∀ t, AmlParser.defaultTree 0 = .ok t → AmlParser.poolHypB t 0 = true ∧ AmlParser.poolHypB t 1 = true := by
+  intro t ht
+  have h : (match AmlParser.defaultTree 0 with
+    | .ok t => AmlParser.poolHypB t 0 && AmlParser.poolHypB t 1 | .error _ => false) = true := by decide +kernel
+  rw [ht] at h
+  simpa using h
+example : ∀ t t1 n t2, AmlParser.defaultTree 0 = .ok t → t.newObject opIntNamePath 0 1 = .ok (t1, n) → t1.free n = .ok t2 →
+    AmlParser.G.TreeG t2 ∧ AmlParser.poolHypB t2 1 = true ∧ C13.live t2 n = false := by
+  intro t t1 n t2 ht h1 h2
+  have h : (match AmlParser.defaultTree 0 with
+    | .ok t => (match t.newObject opIntNamePath 0 1 with
+      | .ok (t1, n) => (match t1.free n with
+        | .ok t2 => AmlParser.G.treeGb t2 && AmlParser.poolHypB t2 1 && !C13.live t2 n
+        | .error _ => false)
+      | .error _ => false)
+    | .error _ => false) = true := by decide +kernel
+  rw [ht] at h
+  simp only [h1, h2, Bool.and_eq_true, Bool.not_eq_true'] at h
+  exact ⟨AmlParser.G.treeG_of_b h.1.1, h.1.2, h.2⟩
+
 /-- **`PrettyPrint` is total on well-formed pools** (`C12.print_total`, for the model of `toString`'s panic sites
 that the replay oracle runs, `Replay.Aml.printWalk`: the nil dereferences and dynamic type assertions of
 `toString`, with the recursion over the arguments; its verdict is compared with the real `PrettyPrint` on every
@@ -476,46 +554,75 @@ theorem print_total (t : ObjectTree) (w : C13.WF t) (hroot : C13.live t 0 = true
 
 /-! ### the strict pass, one deferred block
 
-`MethodsHaveFlags t` (`AmlParser.S.MS none t`): every live `Method` object of `t` has a first and a second argument
-and the second holds an integer — what `parseNamePathOrMethodCall` reads without a check
-(`ArgAt(target, 1).value.(uint64)`).  `BlockOK s obj` (`AmlParser.S.BlockOK`): `obj` is live, its table row is
-one the argument parser understands (`rowFacts`), it is not a `Method`, and it hangs under an object that is not a
-`Method`.  `AmlParser.G.FP d s`: reader inside the table, `TreeG` pool, every scope-stack entry live. -/
+`Sh t m` (`AmlParser.S.Sh`): the object `m` has a first and a second argument and the second holds an integer —
+what `parseNamePathOrMethodCall` reads from the `Method` a lookup returned, without a check
+(`ArgAt(target, 1).value.(uint64)`).  `MethodsHaveFlags X t` (`AmlParser.S.MS X none t`): every live `Method`
+outside of the set `X` satisfies `Sh`.  `Unfindable X s ref` (`AmlParser.S.UnF X s ref`): the objects of `X` are
+live, and those that are `Method`s have a name that starts with a zero byte and enclose neither the root nor
+`ref` — no lookup from a scope at or below `ref` returns them (`AmlParser.find_avoid`).  `X` is what a table
+rejected earlier may have left behind: a `Method` whose name or flags were never read.
+`BlockOK s obj` (`AmlParser.S.BlockOK`): `obj` is live, its table row is one the argument parser understands
+(`rowFacts`), it is not a `Method`, and it hangs under an object that is not a `Method`.
+`AmlParser.G.FP d s`: reader inside the table, `TreeG` pool, every scope-stack entry live. -/
 
 /-- **One deferred block never panics and keeps the pool well-formed.**  For every table `d` shorter than
 2^32 − 2^28 bytes, every fuel and every parser state `s` with a well-formed pool in which every `Method` has its
-flags, no `Method` is on the scope stack, and with room for 16 objects per table byte: `parseDeferred(obj)` — the
-re-parse of a deferred object's arguments in `parseModeAllBlocks`, with everything it calls (`parseObjectArgs`,
-`parseArgs`, `parseArg`, `parseStrictTermArg`, `parseTarget`, `parseNextObject`, `parseNamePathOrMethodCall`
-including the lookup, the method-call conversion and the argument loop, `parseFieldElements`, `popPkgEnd`, every
-decoder and every tree operation) — does not end in `.panic`: no nil dereference of `scopeCurrent()`, `ObjectAt`
-or `ArgAt(target, 1)`, no failed type assertion on the flags of a method, no opcode-table index out of range, no
-`scopeExit` on an empty stack, and every `append` / `detach` is called inside its contract.  In whatever state it
-returns — `ok` or `failed` — the pool satisfies `C13.WF`, the root is live, table indices are in range, the
-reader is inside the table, every scope-stack entry is live, and every object that existed is still live under
-the same parent.  On success every `Method` — also the ones the block declared — has its flags, and the scope
-stack is as it was.  (The model's fuel may run out: the fuel bound of the strict parse is not proved.) -/
+flags or cannot be found (`X`), no `Method` is on the scope stack, and with room for 16 objects per table byte:
+`parseDeferred(obj)` — the re-parse of a deferred object's arguments in `parseModeAllBlocks`, with everything it
+calls (`parseObjectArgs`, `parseArgs`, `parseArg`, `parseStrictTermArg`, `parseTarget`, `parseNextObject`,
+`parseNamePathOrMethodCall` including the lookup, the method-call conversion and the argument loop,
+`parseFieldElements`, `popPkgEnd`, every decoder and every tree operation) — does not end in `.panic`: no nil
+dereference of `scopeCurrent()`, `ObjectAt` or `ArgAt(target, 1)`, no failed type assertion on the flags of a
+method, no opcode-table index out of range, no `scopeExit` on an empty stack, and every `append` / `detach` is
+called inside its contract.  In whatever state it returns — `ok` or `failed` — the pool satisfies `C13.WF`, the
+root is live, table indices are in range, the reader is inside the table, every scope-stack entry is live, and
+every object that existed is still live under the same parent.  On success every `Method` outside of `X` — also
+the ones the block declared — has its flags, and the scope stack is as it was.  (The model's fuel may run out:
+the fuel bound of the strict parse is not proved.) -/
 theorem deferred_block_no_panic_WF (d : Bytes) (hd : d.size + 268435456 ≤ 4294967296) (fuel obj : Nat)
-    (s : AmlParser.PState) (h : AmlParser.G.FP d s) (hnm : AmlParser.S.StackNM s)
-    (hms : AmlParser.S.MS none s.tree) (hobj : AmlParser.S.BlockOK s obj)
+    (s : AmlParser.PState) (X : Nat → Prop) (h : AmlParser.G.FP d s) (hnm : AmlParser.S.StackNM s)
+    (hms : AmlParser.S.MS X none s.tree) (hunf : AmlParser.S.UnF X s obj) (hobj : AmlParser.S.BlockOK s obj)
     (hbud : s.tree.pool.size + 16 * d.size + 16 ≤ 4294967295) :
     AmlParser.NPs (AmlParser.parseDeferred d fuel obj) s (fun res s' =>
       C13.WF s'.tree ∧ C13.live s'.tree 0 = true ∧
       (∀ i, C13.live s'.tree i = true → (opFlags (C13.slot s'.tree i).infoIndex).isSome = true) ∧
       s'.r.offset ≤ d.size ∧ s'.r.pkgEnd ≤ d.size ∧ (∀ x ∈ s'.scopeStack.toList, C13.live s'.tree x = true) ∧
       (∀ x, C13.live s.tree x = true → C13.live s'.tree x = true ∧ C13.P s'.tree x = C13.P s.tree x) ∧
-      (res = .ok → AmlParser.S.MS none s'.tree ∧ s'.scopeStack = s.scopeStack)) := by
-  refine (AmlParser.S.parseDeferred_np hd fuel obj h hnm hms hobj hbud).mono ?_
+      (res = .ok → AmlParser.S.MS X none s'.tree ∧ s'.scopeStack = s.scopeStack)) := by
+  refine (AmlParser.S.parseDeferred_np hd fuel obj h hnm hms hunf hobj hbud).mono ?_
   intro res s' ⟨h', hold, hok⟩
   exact ⟨h'.tree.wf, h'.tree.root, h'.tree.info, h'.inv.1, h'.inv.2, h'.scopes, hold, hok⟩
 
+/-- **One deferred block is total** (`C12.total`, one block of stage `parseDeferredBlocks`): under the hypotheses
+of `deferred_block_no_panic_WF` and with fuel ≥ 16·len + 15 (`fuelFor` is), `parseDeferred(obj)` *returns* — no
+`.panic` and no `.outOfFuel`: the strict re-parse of one block terminates, its recursion is at most 16 frames per
+table byte deep — in a state with the same guarantees. -/
+theorem deferred_block_total (d : Bytes) (hd : d.size + 268435456 ≤ 4294967296) (fuel obj : Nat)
+    (s : AmlParser.PState) (X : Nat → Prop) (h : AmlParser.G.FP d s) (hnm : AmlParser.S.StackNM s)
+    (hms : AmlParser.S.MS X none s.tree) (hunf : AmlParser.S.UnF X s obj) (hobj : AmlParser.S.BlockOK s obj)
+    (hbud : s.tree.pool.size + 16 * d.size + 16 ≤ 4294967295) (hfuel : 16 * d.size + 15 ≤ fuel) :
+    ∃ res s', AmlParser.parseDeferred d fuel obj s = .ok (res, s') ∧
+      C13.WF s'.tree ∧ C13.live s'.tree 0 = true ∧
+      (∀ i, C13.live s'.tree i = true → (opFlags (C13.slot s'.tree i).infoIndex).isSome = true) ∧
+      s'.r.offset ≤ d.size ∧ s'.r.pkgEnd ≤ d.size ∧ (∀ x ∈ s'.scopeStack.toList, C13.live s'.tree x = true) ∧
+      (∀ x, C13.live s.tree x = true → C13.live s'.tree x = true ∧ C13.P s'.tree x = C13.P s.tree x) ∧
+      (res = .ok → AmlParser.S.MS X none s'.tree ∧ s'.scopeStack = s.scopeStack) := by
+  obtain ⟨res, s', e, h', hold, hok⟩ := AmlParser.ST.parseDeferred_tot hd fuel obj h hnm hms hunf hobj hbud hfuel
+  exact ⟨res, s', e, h'.tree.wf, h'.tree.root, h'.tree.info, h'.inv.1, h'.inv.2, h'.scopes, hold, hok⟩
+
+example (d : Bytes) (t : ObjectTree) : 16 * d.size + 15 ≤ AmlParser.fuelFor d t := by
+  unfold AmlParser.fuelFor; omega
+
 /-- **The oracle's checks of the block hypotheses are sound**: when `blockAudit d s obj` reports nothing, `s` and
-`obj` satisfy every hypothesis of `deferred_block_no_panic_WF`.  The replay driver evaluates `blockAudit` on the
-model's state in front of every `parseDeferred` of every input (`auditDeferredBlocks`, the walk of
-`parseDeferredBlocks` with the check added) and reports a violation as `clause=shape-hypothesis`. -/
+`obj` satisfy every hypothesis of `deferred_block_no_panic_WF`, with `X` = the `Method` objects of `s` that lack
+their flags (`AmlParser.S.Inc`): each of them has a name starting with a zero byte and encloses neither the
+root nor `obj`.  The replay driver evaluates `blockAudit` on the model's state in front of every `parseDeferred`
+of every input (`auditDeferredBlocks`, the walk of `parseDeferredBlocks` with the check added) and reports a
+violation as `clause=shape-hypothesis`. -/
 theorem deferred_block_checks_sound (d : Bytes) (s : AmlParser.PState) (obj : Nat)
     (h : AmlParser.blockAudit d s obj = []) :
-    AmlParser.G.FP d s ∧ AmlParser.S.StackNM s ∧ AmlParser.S.MS none s.tree ∧ AmlParser.S.BlockOK s obj ∧
+    AmlParser.G.FP d s ∧ AmlParser.S.StackNM s ∧ AmlParser.S.MS (AmlParser.S.Inc s.tree) none s.tree ∧
+    AmlParser.S.UnF (AmlParser.S.Inc s.tree) s obj ∧ AmlParser.S.BlockOK s obj ∧
     s.tree.pool.size + 16 * d.size + 16 ≤ 4294967295 :=
   AmlParser.S.blockAudit_sound h
 
